@@ -19,6 +19,9 @@ use crate::codec_drv::{hex, msg_to_json, unhex};
 pub struct ScriptStream {
   pub segs: Vec<Vec<u8>>,
   pub out: Arc<Mutex<Vec<u8>>>,
+  // yield once (Pending + immediate wake) after each segment, as a socket whose next segment has not arrived
+  pub yield_between: bool,
+  pub yielded: bool,
 }
 
 impl AsyncRead for ScriptStream {
@@ -31,6 +34,11 @@ impl AsyncRead for ScriptStream {
         self.segs.remove(0);
         continue;
       }
+      if self.yield_between && self.yielded {
+        self.yielded = false;
+        _cx.waker().wake_by_ref();
+        return Poll::Pending;
+      }
       let n = std::cmp::min(buf.len(), self.segs[0].len());
       if n == 0 {
         return Poll::Ready(Ok(0));
@@ -38,6 +46,7 @@ impl AsyncRead for ScriptStream {
       buf[..n].copy_from_slice(&self.segs[0][..n]);
       if n == self.segs[0].len() {
         self.segs.remove(0);
+        self.yielded = true;
       } else {
         self.segs[0].drain(..n);
       }
@@ -62,10 +71,15 @@ impl AsyncWrite for ScriptStream {
 #[derive(Clone)]
 struct RecFactory {
   log: Arc<Mutex<Vec<Value>>>,
+  echo: bool,
 }
 
 struct RecDispatcher {
   log: Arc<Mutex<Vec<Value>>>,
+  // echo mode: every dispatched frame is answered with a PONG, so that the connection has outbound traffic
+  // while the next header is still arriving
+  echo: Option<ConnTx>,
+  n: u32,
 }
 
 #[async_trait]
@@ -77,6 +91,10 @@ impl Dispatcher for RecDispatcher {
       None => Value::Null,
     };
     self.log.lock().unwrap().push(j);
+    if let Some(tx) = &self.echo {
+      self.n += 1;
+      tx.send_message(Message::Pong(narwhal_protocol::PongParameters { id: self.n }));
+    }
     Ok(None)
   }
   async fn bootstrap(&mut self) -> anyhow::Result<()> {
@@ -89,8 +107,8 @@ impl Dispatcher for RecDispatcher {
 
 #[async_trait]
 impl DispatcherFactory<RecDispatcher> for RecFactory {
-  async fn create(&mut self, _handler: usize, _tx: ConnTx) -> RecDispatcher {
-    RecDispatcher { log: self.log.clone() }
+  async fn create(&mut self, _handler: usize, tx: ConnTx) -> RecDispatcher {
+    RecDispatcher { log: self.log.clone(), echo: if self.echo { Some(tx) } else { None }, n: 0 }
   }
   async fn bootstrap(&mut self) -> anyhow::Result<()> {
     Ok(())
@@ -122,14 +140,15 @@ fn run_one(c: &Value) -> Value {
   let segs: Vec<Vec<u8>> = c["segs"].as_array().unwrap().iter().map(|s| unhex(s.as_str().unwrap())).collect();
   let out = Arc::new(Mutex::new(Vec::new()));
   let log = Arc::new(Mutex::new(Vec::new()));
+  let echo = c.get("echo").and_then(|v| v.as_bool()).unwrap_or(false);
   let rt = tokio::runtime::Builder::new_current_thread().enable_all().start_paused(true).build().unwrap();
   let local = tokio::task::LocalSet::new();
   let out2 = out.clone();
   let log2 = log.clone();
   let panicked = local.block_on(&rt, async move {
     let mng: ConnManager<C2sService> = ConnManager::new(cfg);
-    let stream = ScriptStream { segs, out: out2 };
-    let factory = RecFactory { log: log2 };
+    let stream = ScriptStream { segs, out: out2, yield_between: echo, yielded: false };
+    let factory = RecFactory { log: log2, echo };
     let h = tokio::task::spawn_local(async move {
       mng.run_connection(stream, factory).await;
     });
@@ -139,7 +158,21 @@ fn run_one(c: &Value) -> Value {
     }
   });
   let items = log.lock().unwrap().clone();
-  json!({"items": items, "out": hex(&out.lock().unwrap()), "panic": panicked})
+  let mut written = out.lock().unwrap().clone();
+  let mut echoes = 0;
+  if echo {
+    // drop the echo lines: what is compared is what the read path itself wrote
+    let mut kept = Vec::new();
+    for line in written.split_inclusive(|b| *b == b'\n') {
+      if line.starts_with(b"PONG id=") {
+        echoes += 1;
+      } else {
+        kept.extend_from_slice(line);
+      }
+    }
+    written = kept;
+  }
+  json!({"items": items, "out": hex(&written), "panic": panicked, "echoes": echoes})
 }
 
 // BucketedPool geometry probe: capacity totals and the buffer length served for given sizes.
